@@ -6,6 +6,7 @@ spec/GroupBySem.tla     Owner / Selected / Agree / SameGroup (the statement), Si
 spec/GroupBy.tla        fill machine keyed by the selected sub-context; TLC: partition = SameGroup classes
 spec/Trace_Selectors.tla, spec/Trace_GroupBy.tla   validation of recorded runs beyond the bounds
 """
+import concurrent.futures
 import itertools
 import json
 import os
@@ -101,6 +102,16 @@ def run_filter(ast, flow, how):
                 out.append(v)
         except Exception as exc:   # noqa
             raised = type(exc).__name__
+        # the same Filter object run over the same flow again
+        out2, raised2 = [], ""
+        try:
+            for v in flt.run(iter(flow)):
+                out2.append(v)
+        except Exception as exc:   # noqa
+            raised2 = type(exc).__name__
+        if raised2 != raised or len(out2) != len(out) or any(a is not b for a, b in zip(out, out2)):
+            raised = raised or "second run differs"
+            out = out + ["<second run differs>"]
     return out, raised
 
 
@@ -188,7 +199,7 @@ def check_sel_trace(ctx, trace, worst, max_rounds=6):
     for _ in range(max_rounds):
         if not todo:
             break
-        acc = ctx.validate("Trace_Selectors", "Trace_Selectors.cfg", todo, label="trace")
+        acc = ctx.validate("Trace_Selectors", "Trace_Selectors.cfg", todo, label="seltrace")
         ctx.traces += acc
         accepted.extend(todo[:acc])
         if acc >= len(todo):
@@ -236,7 +247,7 @@ def make_groupby(G, M, style):
     import lena.flow as lf
     if style == 2 and G == [] and M == [[]]:
         return lf.GroupBy()                # the default arguments: everything in one group
-    g, m = sl.gm_args(G, M, style % 2)
+    g, m = sl.gm_args(G, M, 3 if style == 3 else style % 2)
     return lf.GroupBy(g, m)
 
 
@@ -303,7 +314,7 @@ def replay_classes(ctx, recs, rnd, worst):
         for pos, ci in enumerate(order):
             expected.setdefault(cls[ci], []).append(pos)
         exp = sorted(expected.values())
-        for style in ((0, 1, 2) if rnum % 7 == 0 or (G == [] and M == [[]]) else (rnum % 2,)):
+        for style in ((0, 1, 2, 3) if rnum % 7 == 0 or (G == [] and M == [[]]) else (rnum % 4,)):
             try:
                 gb = make_groupby(G, M, style)
                 groups, computed = fill_all(gb, values)
@@ -337,25 +348,43 @@ def replay_classes(ctx, recs, rnd, worst):
 
 
 def replay_flows(ctx, recs, worst):
+    """Behaviours of the GroupBy machine: fill / compute() / reset() in any order on one object."""
     for rnum, rec in enumerate(recs):
         G, M = rec["G"], rec["M"]
-        cs = [sl.dec_ctx(c) for c in rec["flow"]]
-        values = [(pos, c) for pos, c in enumerate(cs)]
-        exp = sorted([p - 1 for p in g] for g in rec["groups"])
+        items = rec["flow"]
+        cs = {pos + 1: sl.dec_ctx(it["c"]) for pos, it in enumerate(items) if it["op"] == "fill"}
+        snaps = []
         try:
-            gb = make_groupby(G, M, rnum % 2)
-            groups, _ = fill_all(gb, values)
+            gb = make_groupby(G, M, rnum % 4)
+            for pos, it in enumerate(items):
+                if it["op"] == "fill":
+                    gb.fill((pos + 1, cs[pos + 1]))
+                elif it["op"] == "compute":
+                    snaps.append(sorted([v[0] for v in g] for g in gb.compute()))
+                else:
+                    gb.reset()
+            groups = [list(g) for g in gb.groups.values()]
         except Exception as exc:   # noqa
             shape_problem(worst, "raised %s" % type(exc).__name__, G, M, {"exception": repr(exc)})
             continue
         got = [[v[0] for v in g] for g in groups]
+        exp = sorted(list(g) for g in rec["groups"])
+        ops = [it["op"] for it in items]
         if sorted(got) != exp:
-            gi = {p: k for k, g in enumerate(got) for p in g}
-            ei = {p: k for k, g in enumerate(exp) for p in g}
             if any(sorted(g) != g for g in got):
                 shape_problem(worst, "arrival order not preserved", G, M, {"a_group": next(g for g in got if sorted(g) != g)})
-            note_pairs(worst, G, M, cs, lambda i, j: gi.get(i) == gi.get(j), lambda i, j: ei[i] == ei[j],
-                       "behaviour of the fill machine")
+            live = sorted(p for g in exp for p in g)
+            if sorted(p for g in got for p in g) != live:
+                shape_problem(worst, "groups do not hold exactly the values filled since the last reset()", G, M,
+                              {"operations": ops, "expected": exp, "observed": sorted(got)})
+            else:
+                gi = {p: k for k, g in enumerate(got) for p in g}
+                ei = {p: k for k, g in enumerate(exp) for p in g}
+                note_pairs(worst, G, M, [cs[p] for p in live], lambda i, j: gi[live[i]] == gi[live[j]],
+                           lambda i, j: ei[live[i]] == ei[live[j]], "behaviour of the fill machine")
+        if snaps != [sorted(list(g) for g in sn) for sn in rec["snaps"]]:
+            shape_problem(worst, "compute() does not yield the groups of the values filled so far", G, M,
+                          {"operations": ops, "expected": rec["snaps"], "observed": snaps})
         ctx.case(["groupby-flow", G, M, rec["flow"]], nontrivial=len(cs) > 1)
 
 
@@ -441,7 +470,7 @@ def check_gb_trace(ctx, trace, worst):
     says which half of 'exactly when' fails first and on which record."""
     if not trace:
         return []
-    acc = ctx.validate("Trace_GroupBy", "Trace_GroupBy.cfg", trace, label="trace")
+    acc = ctx.validate("Trace_GroupBy", "Trace_GroupBy.cfg", trace, label="gbtrace")
     ctx.traces += acc
     ctx.evaluations += len(trace)
     for r in trace[:acc]:
@@ -451,7 +480,7 @@ def check_gb_trace(ctx, trace, worst):
         found = False
         for mode, kind in (("shape", "groups are not an order-preserving partition"), ("merged", "merged"),
                            ("split", "split")):
-            a = ctx.validate("Trace_GroupBy", "Trace_GroupBy.cfg", trace, label="classify", env={"GB_MODE": mode})
+            a = ctx.validate("Trace_GroupBy", "Trace_GroupBy.cfg", trace, label="gbclassify", env={"GB_MODE": mode})
             if a < len(trace):
                 found = True
                 r = trace[a]
@@ -474,30 +503,7 @@ def run(ctx):
                "before their last level (that case of contains belongs to C08)")
     ctx.assume("And/Or objects built with raise_on_error=False contain no ready-made item that can raise "
                "(the documentation does not say whether they must swallow its exception)")
-    # ---- design level
-    ctx.mc("Selectors", "Selectors_%s.cfg" % tag, coverage=True, must_cover=SEL_ACTIONS)
-    if ctx.thorough:
-        # (in the quick tier the Filter universe is checked once, by the export run below)
-        ctx.mc("Selectors", "Selectors_filter_thorough.cfg", coverage=True,
-               must_cover=("FilterPull", "FilterEnd", "FilterDecide"))
-        ctx.mc("Selectors", "Selectors_thorough3.cfg", coverage=True, must_cover=SEL_ACTIONS)
-    ctx.mc("GroupBy", "GroupBy_%s.cfg" % tag, coverage=True, must_cover=("FillOld", "FillNew"))
-    ctx.mc("GroupBy", "GroupBy_rel_%s.cfg" % tag)
-    # ---- spec -> code: selectors
-    recs = ctx.export("Selectors", "Selectors_%s_export.cfg" % tag, min_records=1000)
-    vals = next((r["vals"] for r in recs if r["vals"]), None)
-    if not vals:
-        raise core.MachineryError("Selectors export: the values are missing")
-    worst = Worst()
-    replay_vectors(ctx, recs, vals, worst)
-    ctx.sample({"spec_behaviour_selector": recs[len(recs) // 2], "values": [repr(sl.dec_val(v)) for v in vals]})
-    if ctx.thorough:
-        recs3 = ctx.export("Selectors", "Selectors_thorough3_export.cfg", min_records=1000)
-        replay_vectors(ctx, recs3, vals, worst)
-    frecs = ctx.export("Selectors", "Selectors_filter_%s_export.cfg" % tag, min_records=500)
-    replay_filters(ctx, frecs, worst)
-    ctx.sample({"spec_behaviour_filter": frecs[len(frecs) // 2]})
-    # ---- spec -> code: GroupBy
+    # ---- all TLC jobs of the design level and of the export are independent: side by side
     pairs, rejected = accepted_pairs(ctx)
     if len(pairs) < 20:
         raise core.MachineryError("vacuous: make_include_exclude_tree accepts only %d key sets" % len(pairs))
@@ -505,27 +511,54 @@ def run(ctx):
     gmfile = os.path.join(ctx.workdir, "gm.json")
     with open(gmfile, "w") as f:
         json.dump(pairs, f)
+    genv = {"GM_FILE": gmfile}
+    pool = concurrent.futures.ThreadPoolExecutor(max_workers=4 if ctx.thorough else 7)
+    mcs = [pool.submit(ctx.mc, "Selectors", "Selectors_%s.cfg" % tag, coverage=True, must_cover=SEL_ACTIONS),
+           pool.submit(ctx.mc, "GroupBy", "GroupBy_%s.cfg" % tag, coverage=True,
+                       must_cover=("FillOld", "FillNew", "Compute", "Reset") if not ctx.thorough else ("FillOld", "FillNew")),
+           pool.submit(ctx.mc, "GroupBy", "GroupBy_rel_%s.cfg" % tag)]
+    f_recs = pool.submit(ctx.export, "Selectors", "Selectors_%s_export.cfg" % tag, min_records=1000)
+    f_frecs = pool.submit(ctx.export, "Selectors", "Selectors_filter_%s_export.cfg" % tag, min_records=500)
+    f_crecs = pool.submit(ctx.export, "GroupBy", "GroupBy_%s_export.cfg" % tag, env=genv, min_records=len(pairs))
+    f_flrecs = pool.submit(ctx.export, "GroupBy", "GroupBy_flow_%s_export.cfg" % tag, env=genv, min_records=1000)
+    if ctx.thorough:
+        mcs += [pool.submit(ctx.mc, "Selectors", "Selectors_filter_thorough.cfg", coverage=True,
+                            must_cover=("FilterPull", "FilterEnd", "FilterDecide", "Again")),
+                pool.submit(ctx.mc, "Selectors", "Selectors_thorough3.cfg", coverage=True, must_cover=SEL_ACTIONS),
+                pool.submit(ctx.mc, "GroupBy", "GroupBy_ops_thorough.cfg", coverage=True,
+                            must_cover=("FillOld", "FillNew", "Compute", "Reset"))]
+        f_recs3 = pool.submit(ctx.export, "Selectors", "Selectors_thorough3_export.cfg", min_records=1000)
+        f_crecs2 = pool.submit(ctx.export, "GroupBy", "GroupBy_thorough2_export.cfg", env=genv, min_records=len(pairs))
+    # ---- spec -> code: selectors
+    recs = f_recs.result()
+    vals = next((r["vals"] for r in recs if r["vals"]), None)
+    if not vals:
+        raise core.MachineryError("Selectors export: the values are missing")
+    worst = Worst()
+    replay_vectors(ctx, recs, vals, worst)
+    ctx.sample({"spec_behaviour_selector": recs[len(recs) // 2], "values": [repr(sl.dec_val(v)) for v in vals]})
+    if ctx.thorough:
+        replay_vectors(ctx, f_recs3.result(), vals, worst)
+    frecs = f_frecs.result()
+    replay_filters(ctx, frecs, worst)
+    ctx.sample({"spec_behaviour_filter": frecs[len(frecs) // 2]})
+    # ---- spec -> code: GroupBy
     gworst = Worst()
-    crecs = ctx.export("GroupBy", "GroupBy_%s_export.cfg" % tag, env={"GM_FILE": gmfile}, min_records=len(pairs))
+    crecs = f_crecs.result()
     replay_classes(ctx, crecs, rnd, gworst)
     if ctx.thorough:
         # a second universe: None, 0, "", [], False, {} at every listed path
-        crecs2 = ctx.export("GroupBy", "GroupBy_thorough2_export.cfg", env={"GM_FILE": gmfile}, min_records=len(pairs))
-        replay_classes(ctx, crecs2, rnd, gworst)
+        replay_classes(ctx, f_crecs2.result(), rnd, gworst)
     ctx.sample({"spec_behaviour_groupby": {k: crecs[len(crecs) // 2][k] for k in ("G", "M", "cls")}})
-    flrecs = ctx.export("GroupBy", "GroupBy_flow_%s_export.cfg" % tag, env={"GM_FILE": gmfile}, min_records=1000)
+    flrecs = f_flrecs.result()
     replay_flows(ctx, flrecs, gworst)
+    for f in mcs:
+        f.result()                      # a failed design-level run is a machinery error
     # ---- code -> spec
     strace = record_selectors(ctx, rnd, 12000 if ctx.thorough else 2500, worst)
-    check_sel_trace(ctx, strace, worst)
-    report_selector(ctx, worst)
-    sdemo = [{"op": "sel", "ast": r["ast"], "val": vals[j], "res": r["res"][j], "exc": ""}
-             for j, r in enumerate(recs[len(recs) // 2:len(recs) // 2 + 8])]
-    ctx.binding_demo("Trace_Selectors", "Trace_Selectors.cfg", sdemo,
-                     lambda r: dict(r, res={"T": "F", "F": "T", "E": "F"}[r["res"]]))
     gtrace = record_groupby(ctx, rnd, 6000 if ctx.thorough else 1200, gworst)
-    check_gb_trace(ctx, gtrace, gworst)
-    report_groupby(ctx, gworst)
+    sdemo = [{"op": "sel", "ast": r["ast"], "val": vals[j], "res": r["res"][j], "exc": ""}
+             for j, r in enumerate(r2 for r2 in recs[len(recs) // 2:len(recs) // 2 + 40] if "U" not in r2["res"][:8])][:8]
 
     def corrupt_groups(r):
         if len(r["groups"]) < 2:
@@ -533,9 +566,21 @@ def run(ctx):
         g = [list(x) for x in r["groups"]]
         g[1] = sorted(g[1] + [g[0].pop()])
         return dict(r, groups=[x for x in g if x])
-    # the demonstration uses behaviours of the specification itself, so it does not depend on the tree under test
-    demo = [{"G": r["G"], "M": r["M"], "ctxs": r["flow"], "groups": r["groups"]} for r in flrecs[-60:]]
-    ctx.binding_demo("Trace_GroupBy", "Trace_GroupBy.cfg", demo, corrupt_groups)
+    # the demonstrations use behaviours of the specification itself, so they do not depend on the tree under test
+    demo = [{"G": r["G"], "M": r["M"], "ctxs": [it["c"] for it in r["flow"]], "groups": r["groups"]}
+            for r in flrecs if all(it["op"] == "fill" for it in r["flow"])][-60:]
+    def demos():      # (one after the other: core.binding_demo uses one scratch file name)
+        ctx.binding_demo("Trace_Selectors", "Trace_Selectors.cfg", sdemo,
+                         lambda r: dict(r, res={"T": "F", "F": "T", "E": "F"}[r["res"]]))
+        ctx.binding_demo("Trace_GroupBy", "Trace_GroupBy.cfg", demo, corrupt_groups)
+    jobs = [pool.submit(demos),
+            pool.submit(check_sel_trace, ctx, strace, worst),
+            pool.submit(check_gb_trace, ctx, gtrace, gworst)]
+    for j in jobs:
+        j.result()
+    pool.shutdown()
+    report_selector(ctx, worst)
+    report_groupby(ctx, gworst)
     return ctx.finish(
         rule="S2C: every specification of the exported universe (depth <= 2 quick / <= 3 thorough over strings, classes, "
              "total and raising callables, lists, tuples, Selector/Not/And/Or/SelectContext objects, both "
